@@ -304,6 +304,9 @@ def run_fromalloc(c):
     from gen import lattice as L
     from tools.rect import rect_io
     from vfw import exact as X
+    if c.get("rename"):
+        # module names that contain each other (M1 / M10 / M): the selected module is the one with exactly that name
+        c = dict(c, cells=[dict(cell, a={c["rename"].get(m, m): v for m, v in cell["a"].items()}) for cell in c["cells"]])
     src = A.tree(c) if c["form"] == "tree" else A.text(c)
     try:
         ifile = rect_io.get_alloc(src)
@@ -334,6 +337,8 @@ def run_fromalloc(c):
             cls.append("module-in-several-cells")
     if any(not cell["a"] for cell in c["cells"]):
         cls.append("empty-cell")
+    if any(a != b and a in b for a in mods for b in mods):
+        cls.append("a-name-contained-in-another")
     return dict(nt=len(c["cells"]) >= 3 and len(mods) >= 3, cls=cls)
 
 
@@ -342,13 +347,16 @@ def fromalloc_s(draw):
     from gen import alloc as A
     c = draw(A.alloc_case(sliver=False))
     c["form"] = draw(st.sampled_from(["tree", "text"]))
+    if draw(st.booleans()):
+        c["rename"] = draw(st.sampled_from([{"M0": "M1", "M1": "M10", "M2": "M", "M3": "M1_0"}, {"M0": "A", "M1": "AB", "M2": "BA", "M3": "B"},
+                                            {"M0": "M10", "M1": "M1", "M2": "M100", "M3": "M"}]))
     return c
 
 
 def subchecks():
     return [
         Sub("fromalloc", run_fromalloc, strategy=fromalloc_s(), n_quick=2000, n_thorough=40000,
-            required=("tree", "text", "module-in-several-cells", "empty-cell"),
+            required=("tree", "text", "module-in-several-cells", "empty-cell", "a-name-contained-in-another"),
             desc="rect_io.get_alloc + select_box: the blocks handed to the search are the allocation's cells, in order, with the selected module's ratio (0 where absent)"),
         Sub("models", run_models, strategy=grid_s(), n_quick=4000, n_thorough=40000,
             required=("origin!=0", "fractional-extent", "non-uniform", "blocks-permuted", "k=1", "k=2", "k=3", "k=4", "coordinates-with-7+-significant-digits")),
